@@ -44,6 +44,8 @@ pub fn tree_parts(prop: &str, std: &Std) -> Vec<Part> {
     let base = || std.base_list();
     let gens = |parts: &mut Vec<Part>, q: usize, t: usize, rule: &CfgRule| {
         for g in crate::gen::all_gen_pools() {
+            // G-BODY enumerates (context × inner construct) systematically: take enough to cover every combination
+            let q = if g.name() == "G-BODY" { q.max(800) * 2 } else { q };
             parts.push(Part { pool: g, quick: q, thorough: t, cfg: rule.clone() });
         }
     };
